@@ -129,7 +129,9 @@ func appliedEvents(cau chain.ApplyUpdate, walletAddress types.Address) (events [
 			continue
 		}
 		for _, si := range txn.SiafundInputs {
-			if si.UnlockConditions.UnlockHash() == walletAddress {
+			// the claim is paid to the claim address, which need not be the
+			// siafunds' owner
+			if si.UnlockConditions.UnlockHash() == walletAddress && si.ClaimAddress == walletAddress {
 				outputID := si.ParentID.ClaimOutputID()
 				sce, ok := siacoinElements[outputID]
 				if !ok {
@@ -177,7 +179,9 @@ func appliedEvents(cau chain.ApplyUpdate, walletAddress types.Address) (events [
 			continue
 		}
 		for _, si := range txn.SiafundInputs {
-			if si.Parent.SiafundOutput.Address == walletAddress {
+			// the claim is paid to the claim address, which need not be the
+			// siafunds' owner
+			if si.Parent.SiafundOutput.Address == walletAddress && si.ClaimAddress == walletAddress {
 				outputID := types.SiafundOutputID(si.Parent.ID).V2ClaimOutputID()
 				sce, ok := siacoinElements[outputID]
 				if !ok {
